@@ -27,11 +27,19 @@ def is_mutable_expr(e):
     return False
 
 
+SET_FUNCS: set[str] = set()  # simple names of package functions that return a set (first pass)
+
+
 def is_set_expr(e, local_sets):
     if isinstance(e, (ast.Set, ast.SetComp)):
         return True
     if isinstance(e, ast.Call) and isinstance(e.func, ast.Name) and e.func.id in ("set", "frozenset"):
         return True
+    if isinstance(e, ast.Call):
+        f = e.func
+        n = f.id if isinstance(f, ast.Name) else f.attr if isinstance(f, ast.Attribute) else None
+        if n in SET_FUNCS:
+            return True  # the value returned by a set-returning function of the package
     if isinstance(e, ast.Name) and e.id in local_sets:
         return True
     if isinstance(e, ast.Attribute) and e.attr in local_sets:
@@ -41,7 +49,30 @@ def is_set_expr(e, local_sets):
     return False
 
 
+def find_set_functions():
+    """functions of the package one of whose return expressions is a set (fixed point over calls)"""
+    SET_FUNCS.clear()
+    trees = [ast.parse(p.read_text()) for p in sorted(PKG.rglob("*.py"))]
+    changed = True
+    while changed:
+        changed = False
+        for tree in trees:
+            for fn in ast.walk(tree):
+                if not isinstance(fn, (ast.FunctionDef, ast.AsyncFunctionDef)) or fn.name in SET_FUNCS:
+                    continue
+                local = set()
+                for n in ast.walk(fn):
+                    if isinstance(n, ast.Assign) and len(n.targets) == 1 and isinstance(n.targets[0], ast.Name) and is_set_expr(n.value, set()):
+                        local.add(n.targets[0].id)
+                for n in ast.walk(fn):
+                    if isinstance(n, ast.Return) and n.value is not None and is_set_expr(n.value, local):
+                        SET_FUNCS.add(fn.name)
+                        changed = True
+                        break
+
+
 def analyse():
+    find_set_functions()
     cells = []  # (cell, kind)
     writes = []  # (cell, function)
     set_iter = []  # (module, function, source)
